@@ -1,3 +1,4 @@
+import os, sys
 import re
 
 def _pat(case):
@@ -23,11 +24,22 @@ def sig_trailing_nul(case, m):
     return (_pat(case) and m.get("kind") == "api.pat-trailing-nul" and _mm_op(m) in ("P", "LP")
             and any(k.endswith("00") for k in puts))
 
+NSHARDS = 15   # thorough tier: the exhaustive enumeration is cut into shards so that no trace exceeds ~150 MB
+
+
+def _batches(tier):
+    if tier == "thorough":
+        ex = [("exhaustive-%02d" % i, "-mode exhaustive -tier thorough -shard %d -nshards %d" % (i, NSHARDS))
+              for i in range(NSHARDS)]
+    else:
+        ex = [("exhaustive", "-mode exhaustive -tier quick")]
+    return ex + [(mode, "-mode %s -tier %s" % (mode, tier)) for mode in ("ab", "abstar", "bytes", "nul", "adversarial")]
+
+
 CFG = {
     "prop_v": "theories/Properties/C06.v",
     "cmd": "c06",
-    "batches": lambda tier, seed: [(mode, "-mode %s -tier %s" % (mode, tier))
-                                   for mode in ("exhaustive", "ab", "abstar", "bytes", "nul", "adversarial")],
+    "batches": lambda tier, seed: _batches(tier),
     "signatures": {
         "pat-withprefix": sig_withprefix,
         "pat-longestprefixof": sig_longestprefixof,
@@ -46,3 +58,31 @@ CFG = {
                     "values are ints; the model is polymorphic in the value type",
                     "the Patricia model's loops run on fuel length(heap)+2; exhaustion would be reported as HANG and compared with the implementation"],
 }
+
+
+def main(run):
+    """std_check, but a finished batch's trace is deleted when the next batch starts (and the last one at
+    the end) if it is big, so that the thorough tier never keeps more than one shard on disk."""
+    sys.path.insert(0, os.path.join(os.path.dirname(os.path.dirname(os.path.abspath(__file__))), "lib"))
+    import vlib
+    orig = vlib.run_pair
+    prev = {"path": None}
+
+    def drop():
+        p = prev["path"]
+        if p and os.path.exists(p) and os.path.getsize(p) > (32 << 20):
+            os.remove(p)
+
+    def run_pair(trace_exe, model_exe, args, tag, **kw):
+        drop()
+        r = orig(trace_exe, model_exe, args, tag, **kw)
+        prev["path"] = r[0]
+        return r
+
+    vlib.run_pair = run_pair
+    try:
+        return vlib.std_check(run, CFG)
+    finally:
+        vlib.run_pair = orig
+        if run.tier == "thorough":
+            drop()
